@@ -3,37 +3,80 @@
 // over the strictly sorted sequence `es` of internal entries; the client sees, per user key, the
 // newest entry at or below the snapshot, if it is a Put.
 // ---------------------------------------------------------------------------------------------
-// ASSUMED (contract of versioning::file_iterators::MergingIterator, which this Verus build does
-// not ingest - `.iter().enumerate()` / `.rev()`): it satisfies the RainDbIterator cursor contract
-// over the sorted union of its children.  Stand-in with a ghost entry list.
+// Contract of versioning::file_iterators::MergingIterator as its callers (DatabaseIterator, the
+// compaction loop) use it: a cursor over ONE strictly sorted entry list - the cursor contract of
+// the RainDbIterator trait (specs/common/iter_trait.vs), written out on inherent methods so that
+// `next` / `prev` can carry the precondition the real code needs (the cursor is valid: the real
+// `next` unwraps the current entry when it has to turn around).
+// ASSUMED IN THIS POSITION, DISCHARGED IN U24: U24 proves the real bodies in (child, position)
+// coordinates and the ghost theorems `theorem_*_position` show that those postconditions pin the
+// position in any sorted list holding the children's entries, for executions in which no child
+// reports a read error (errors are saved, not returned: DESIGN B.3).  Stand-in with a ghost list.
 pub struct MergingIterator { pub es: Ghost<Seq<(InternalKey, Seq<u8>)>>, pub idx: Ghost<int> }
-impl RainDbIterator for MergingIterator {
-    type Key = InternalKey;
-    type Error = RainDBError;
-    open spec fn it_wf(&self) -> bool {
-        key_order_ok::<InternalKey>() && forall|i: int, j: int| 0 <= i < j < self.es@.len() ==> key_lt(&(#[trigger] self.es@[i]).0, &(#[trigger] self.es@[j]).0)
+impl MergingIterator {
+    pub open spec fn it_wf(&self) -> bool {
+        forall|i: int, j: int| 0 <= i < j < self.es@.len() ==> ik_lt((#[trigger] self.es@[i]).0, (#[trigger] self.es@[j]).0)
     }
-    open spec fn it_len(&self) -> int { self.es@.len() as int }
-    open spec fn it_key(&self, i: int) -> InternalKey { self.es@[i].0 }
-    open spec fn it_val(&self, i: int) -> Seq<u8> { self.es@[i].1 }
-    open spec fn it_idx(&self) -> int { self.idx@ }
+    pub open spec fn it_len(&self) -> int { self.es@.len() as int }
+    pub open spec fn it_key(&self, i: int) -> InternalKey { self.es@[i].0 }
+    pub open spec fn it_val(&self, i: int) -> Seq<u8> { self.es@[i].1 }
+    pub open spec fn it_idx(&self) -> int { self.idx@ }
     #[verifier::external_body]
-    fn is_valid(&self) -> (r: bool) { unimplemented!() }
+    pub fn is_valid(&self) -> (r: bool)
+        requires self.it_wf(),
+        ensures r == (0 <= self.it_idx() < self.it_len()),
+    { unimplemented!() }
     #[verifier::external_body]
-    fn seek(&mut self, target: &InternalKey) -> (r: Result<(), RainDBError>) { unimplemented!() }
+    pub fn seek(&mut self, target: &InternalKey) -> (r: Result<(), RainDBError>)
+        requires old(self).it_wf(),
+        ensures
+            final(self).it_wf(), final(self).es@ == old(self).es@,
+            r is Ok ==> 0 <= final(self).it_idx() <= final(self).it_len()
+                && (forall|i: int| 0 <= i < final(self).it_idx() ==> ik_lt(final(self).it_key(i), *target))
+                && (final(self).it_idx() < final(self).it_len() ==> !ik_lt(final(self).it_key(final(self).it_idx()), *target)),
+    { unimplemented!() }
     // ASSUMED additionally: seek_to_first does not fail.  DatabaseIterator::next ignores its result
     // (`let _seek_result = ...`) when it turns around at the front, so a read error there would
     // end the iteration silently; that error path is outside the contract (see DESIGN B.3).
     #[verifier::external_body]
-    fn seek_to_first(&mut self) -> (r: Result<(), RainDBError>) ensures r is Ok { unimplemented!() }
+    pub fn seek_to_first(&mut self) -> (r: Result<(), RainDBError>)
+        requires old(self).it_wf(),
+        ensures final(self).it_wf(), final(self).es@ == old(self).es@, r is Ok, final(self).it_idx() == 0,
+    { unimplemented!() }
     #[verifier::external_body]
-    fn seek_to_last(&mut self) -> (r: Result<(), RainDBError>) { unimplemented!() }
+    pub fn seek_to_last(&mut self) -> (r: Result<(), RainDBError>)
+        requires old(self).it_wf(),
+        ensures final(self).it_wf(), final(self).es@ == old(self).es@,
+            r is Ok && final(self).it_len() > 0 ==> final(self).it_idx() == final(self).it_len() - 1,
+            r is Ok && final(self).it_len() == 0 ==> !(0 <= final(self).it_idx() < final(self).it_len()),
+    { unimplemented!() }
     #[verifier::external_body]
-    fn next(&mut self) -> (r: Option<(&InternalKey, &Vec<u8>)>) { unimplemented!() }
+    pub fn next(&mut self) -> (r: Option<(&InternalKey, &Vec<u8>)>)
+        requires old(self).it_wf(), 0 <= old(self).it_idx() < old(self).it_len(), // [inner-cursor-is-valid-when-stepped-forward]
+        ensures
+            final(self).it_wf(), final(self).es@ == old(self).es@,
+            (old(self).it_idx() < old(self).it_len() - 1) ==> final(self).it_idx() == old(self).it_idx() + 1,
+            !(old(self).it_idx() < old(self).it_len() - 1) ==> !(0 <= final(self).it_idx() < final(self).it_len()),
+            r is Some <==> (0 <= final(self).it_idx() < final(self).it_len()),
+            r matches Some(kv) ==> *kv.0 == final(self).it_key(final(self).it_idx()) && kv.1@ == final(self).it_val(final(self).it_idx()),
+    { unimplemented!() }
     #[verifier::external_body]
-    fn prev(&mut self) -> (r: Option<(&InternalKey, &Vec<u8>)>) { unimplemented!() }
+    pub fn prev(&mut self) -> (r: Option<(&InternalKey, &Vec<u8>)>)
+        requires old(self).it_wf(), 0 <= old(self).it_idx() < old(self).it_len(), // [inner-cursor-is-valid-when-stepped-backward]
+        ensures
+            final(self).it_wf(), final(self).es@ == old(self).es@,
+            (0 < old(self).it_idx()) ==> final(self).it_idx() == old(self).it_idx() - 1,
+            !(0 < old(self).it_idx()) ==> !(0 <= final(self).it_idx() < final(self).it_len()),
+            r is Some <==> (0 <= final(self).it_idx() < final(self).it_len()),
+            r matches Some(kv) ==> *kv.0 == final(self).it_key(final(self).it_idx()) && kv.1@ == final(self).it_val(final(self).it_idx()),
+    { unimplemented!() }
     #[verifier::external_body]
-    fn current(&self) -> (r: Option<(&InternalKey, &Vec<u8>)>) { unimplemented!() }
+    pub fn current(&self) -> (r: Option<(&InternalKey, &Vec<u8>)>)
+        requires self.it_wf(),
+        ensures
+            r is Some <==> (0 <= self.it_idx() < self.it_len()),
+            r matches Some(kv) ==> *kv.0 == self.it_key(self.it_idx()) && kv.1@ == self.it_val(self.it_idx()),
+    { unimplemented!() }
 }
 
 pub open spec fn e_user(es: Seq<(InternalKey, Seq<u8>)>, i: int) -> Seq<u8> { es[i].0.user_key@ }
@@ -59,7 +102,7 @@ pub proof fn lemma_es_users_monotone(it: &MergingIterator, i: int, j: int)
         e_user(it.es@, i) == e_user(it.es@, j) && i < j ==> e_seq(it.es@, i) > e_seq(it.es@, j),
 {
     if i < j {
-        assert(key_lt(&it.es@[i].0, &it.es@[j].0));
+        assert(ik_lt(it.es@[i].0, it.es@[j].0));
         lemma_ik_user_order(it.es@[i].0, it.es@[j].0);
         lemma_lex_eq(e_user(it.es@, i), e_user(it.es@, j));
     } else {
